@@ -639,10 +639,13 @@ Definition mm_merge (a b : entries) : res entries :=
 
 (* Map.Replace with ReplaceMap (Get answers only for keys of the original, Iter and Size are the
    original's; createFlat after 10 levels keeps the same entries in the same order) *)
+Definition mm_replace_with (m rep : entries) : entries :=
+  map (fun kv => (fst kv, match assoc_v (fst kv) rep with Some x => x | None => snd kv end)) m.
+
 Definition mm_replace (f : cb1) (m : entries) : res entries :=
   bind (f (VMap m)) (fun r =>
     match r with
-    | VMap rep => Ok (map (fun kv => (fst kv, match assoc_v (fst kv) rep with Some x => x | None => snd kv end)) m)
+    | VMap rep => Ok (mm_replace_with m rep)
     | _ => Err None
     end).
 
@@ -666,7 +669,10 @@ Definition mm_observe_key (m : entries) (k : str) : value :=
          match assoc_v k m with Some v => v | None => VInt (-1) end;
          match assoc_v k m with Some _ => VInt (-1) | None => VInt (Z.of_nat (S (length m))) end].
 
-Definition mm_observe (m : entries) (keys : list str) : res value :=
+(* ... followed by [m = other, other = m] for a map handed in by the harness (Map.Equals through =) *)
+Definition mm_observe (m : entries) (other : entries) (keys : list str) : res value :=
   bind (map_to_string m) (fun s =>
+  bind (veq (VMap m) (VMap other)) (fun e1 =>
+  bind (veq (VMap other) (VMap m)) (fun e2 =>
     Ok (VList [VInt (Z.of_nat (length m)); VInt (Z.of_nat (length (mm_list m))); VList (mm_list m);
-               VList (map (mm_observe_key m) keys); VStr s])).
+               VList (map (mm_observe_key m) keys); VStr s; VList [VBool e1; VBool e2]])))).
